@@ -184,3 +184,15 @@ M("c18-render-unicode-encodes", "C18", "render-encoding", (R, "    if as_unicode
 M("c18-getvalue-always-encodes", "C18", "render-encoding", (U, "        if self.encoding:\n            return self.delim.join(self.data).encode(\n                self.encoding, self.errors\n            )\n        else:\n            return self.delim.join(self.data)", "        return self.delim.join(self.data).encode(\n            self.encoding or 'utf-8', self.errors\n        )"))
 M("c18-coding-class-narrow", "C18", "module-encoding", (LX, 'r"#.*coding[:=]\\s*([-\\w.]+).*\\r?\\n"', 'r"#.*coding[:=]\\s*([-\\w]+).*\\r?\\n"'))
 M("c18-comment-not-skipped", "C18", "decode-wrap", (LX, "        self.match_reg(self._coding_re)\n", ""))
+
+# ---------------------------------------------------------------- C07
+M("c07-ns-drops-calling-uri", "C07", "calling-uri", (R, "        self.inherits = inherits\n        self._templateuri = calling_uri\n        if callables is not None:\n            self.callables = {c.__name__: c for c in callables}\n\n    callables = ()", "        self.inherits = inherits\n        if callables is not None:\n            self.callables = {c.__name__: c for c in callables}\n\n    callables = ()"))
+M("c07-include-direct-lookup", "C07", "single-gateway", (R, "    template = _lookup_template(context, uri, calling_uri)\n    callable_, ctx = _populate_self_namespace(", "    template = context.lookup.get_template(uri)\n    callable_, ctx = _populate_self_namespace("))
+M("c07-no-adjust", "C07", "single-gateway", (R, "    uri = lookup.adjust_uri(uri, relativeto)\n", ""))
+M("c07-emit-no-template-uri", "C07", "calling-uri", (CG, '"runtime._include_file(context, %s, _template_uri)"', '"runtime._include_file(context, %s, None)"'))
+M("c07-ns-emitted-without-uri", "C07", "calling-uri", (CG, '" callables=%s, calling_uri=_template_uri)"\n                    % (node.name, callable_name)', '" callables=%s)"\n                    % (node.name, callable_name)'))
+M("c07-include-keeps-parent", "C07", "include-isolation", (R, '        x.pop("parent", None)\n', ""))
+M("c07-include-shares-context", "C07", "include-isolation", (R, "        context._clean_inheritance_tokens(), template\n    )\n    kwargs = _kwargs_for_include", "        context, template\n    )\n    kwargs = _kwargs_for_include"))
+M("c07-context-overrides-args", "C07", "include-args", (R, '        if arg != "context" and arg in data and arg not in kwargs:\n            kwargs[arg] = data[arg]\n    return kwargs\n\n\ndef _render_context', '        if arg != "context" and arg in data:\n            kwargs[arg] = data[arg]\n    return kwargs\n\n\ndef _render_context'))
+M("c07-get-template-root", "C07", "calling-uri", (R, "        return _lookup_template(self.context, uri, self._templateuri)", "        return _lookup_template(self.context, uri, None)"))
+M("c07-no-translate", "C07", "single-gateway", (R, "    try:\n        return lookup.get_template(uri)\n    except exceptions.TopLevelLookupException as e:\n        raise exceptions.TemplateLookupException(\n            str(compat.exception_as())\n        ) from e", "    return lookup.get_template(uri)"))
